@@ -1114,7 +1114,7 @@ const POS_LIQ: [u128; 4] = [0, 1, 1_000_000_000, 1 << 100];
 const N_CKPT: usize = 3;
 const N_OWED: usize = 2;
 const N_TICK_STATES: usize = 5;
-const N_REWARD_CFG: usize = 7;
+const N_REWARD_CFG: usize = 8;
 /// index of the reward configuration no program execution can produce (uninitialised slot with emissions)
 const REWARD_CFG_UNREACHABLE: usize = 6;
 
@@ -1140,6 +1140,9 @@ fn reward_cfg(i: usize) -> [WhirlpoolRewardInfo; 3] {
         3 => [init(0, 1 << 64, 0), init(1, 3 << 63, U128M - 3), init(2, 1 << 127, 1 << 64)],
         4 => [init(0, 0, 11), init(1, 0, 1 << 100), init(2, 0, U128M)],
         5 => [init(0, 1, 1 << 64), init(1, 1 << 64, U128M - (1 << 64)), init(2, U128M, 0)],
+        // the interval of a LOWER index is dropped (elapsed time x rate beyond 128 bits for any interval of two seconds or more)
+        // while higher indexes emit at ordinary rates: their growth must advance all the same
+        7 => [init(0, U128M, 3), init(1, 1 << 64, 7), init(2, 5 << 64, U128M - 1)],
         _ => [un(0, 1 << 64, 7), init(1, 1 << 64, 0), un(2, 5, 0)],
     }
 }
@@ -1616,7 +1619,7 @@ fn selection(quick: bool) -> Sel {
             owed: vec![0, 1],
             pool_liq: vec![0, 2, 3],
             fee_growth: vec![1, 3],
-            rewards: vec![0, 2, 3, 5, 6],
+            rewards: vec![0, 2, 3, 5, 6, 7],
             times: vec![0, 2, 3],
         }
     } else {
